@@ -82,6 +82,9 @@ pub enum CAct {
     AckNewest,
     /// negative acknowledgement (MQTT 5 reason code >= 0x80) of the oldest
     NackOldest,
+    /// only the first two bytes of the acknowledgement `AckOldest` would send are written;
+    /// the rest follows with `Rest`, or the connection fails first
+    PartialAck,
     /// the far end of the transport is dropped
     Fail,
     /// reconnect: transport offered, CONNACK(session_present) written after the CONNECT
@@ -207,6 +210,9 @@ pub struct ClientWorld<P: Proto> {
     /// bytes the client wrote and the broker has not framed yet
     far_buf: bytes::BytesMut,
     partial_rest: Option<Vec<u8>>,
+    /// acknowledgement whose first bytes are written (`PartialAck`): the monitor learns of
+    /// it only when the rest is written
+    partial_pk: Option<Pk>,
     pub mon: Monitor,
     next_tag: u32,
     dead: bool,
@@ -286,6 +292,7 @@ impl<P: Proto> ClientWorld<P> {
                         self.far = None;
                         self.far_buf.clear();
                         self.partial_rest = None;
+                        self.partial_pk = None;
                         self.connack_plan = None;
                         return;
                     }
@@ -404,7 +411,19 @@ impl<P: Proto> ClientWorld<P> {
             CAct::Rest => {
                 if let Some(rest) = self.partial_rest.take() {
                     self.mon.set_partial(false);
+                    if let Some(pk) = self.partial_pk.take() {
+                        self.mon.on_broker_sent(&pk);
+                    }
                     self.broker_write_bytes(&rest);
+                }
+            }
+            CAct::PartialAck => {
+                if let Some(pk) = self.mon.broker_ack_for(false, false) {
+                    let bytes = P::encode(&pk);
+                    self.mon.set_partial(true);
+                    self.broker_write_bytes(&bytes[..2]);
+                    self.partial_rest = Some(bytes[2..].to_vec());
+                    self.partial_pk = Some(pk);
                 }
             }
             CAct::AckOldest | CAct::AckNewest | CAct::NackOldest => {
@@ -417,6 +436,7 @@ impl<P: Proto> ClientWorld<P> {
             CAct::Fail => {
                 self.far = None;
                 self.partial_rest = None;
+                self.partial_pk = None;
                 self.mon.set_partial(false);
             }
             CAct::Reconnect { sp } => {
@@ -467,6 +487,7 @@ impl<P: Proto> World for ClientWorld<P> {
             far: None,
             far_buf: bytes::BytesMut::new(),
             partial_rest: None,
+            partial_pk: None,
             mon: Monitor::new(cfg),
             next_tag: 0,
             dead: false,
@@ -514,6 +535,7 @@ impl<P: Proto> World for ClientWorld<P> {
             self.far.is_some(),
             &self.far_buf[..],
             &self.partial_rest,
+            &self.partial_pk,
             &self.connack_plan,
             self.fut.is_some(),
             self.mon.key(),
